@@ -279,12 +279,19 @@ def pull_stream_obligation(ctx, R, prover, pid="C09"):
     def wait(ex_, st, args, dest_ty, func, where):
         ok = ex_.fresh_bool("wait_ok")
         succ = ex_.fresh_bool("exit_success")
+        # an exit status either carries a code (0..255) or the child was killed by a signal (no code); success <=> code 0
+        has_code, code = ex_.fresh_bool("has_exit_code"), ex_.fresh_int("exit_code", lo=0, hi=255)
+        ex_.assumes.append(succ == z3.And(has_code, code == 0))
         ev["wait"] = fsmodels.record(ex_, st, "wait-child", path=I(0), ok=ok, success=succ)
-        out = VStruct("Output", [VStruct("ExitStatus", [VBool(succ)]), VSeq(z3.K(z3.IntSort(), I(0)), I(0), I(0), "u8"), VSeq(z3.K(z3.IntSort(), I(0)), I(0), I(0), "u8")])
+        out = VStruct("Output", [VStruct("ExitStatus", [VBool(succ), VBool(has_code), VInt(code, "i32")]), VSeq(z3.K(z3.IntSort(), I(0)), I(0), I(0), "u8"), VSeq(z3.K(z3.IntSort(), I(0)), I(0), I(0), "u8")])
         return asyncmodels.ready(fsmodels.io_result(ex_, ok, out))
 
     def success(ex_, st, args, dest_ty, func, where):
         return VBool(fsmodels._deep(ex_, st, args[0]).f[0].t)
+
+    def exit_code(ex_, st, args, dest_ty, func, where):
+        e = fsmodels._deep(ex_, st, args[0])
+        return opt_sym(e.f[1].t, VInt(e.f[2].t, "i32"))
 
     def poll_ready(ex_, st, args, dest_ty, func, where):
         pin = args[0]
@@ -293,7 +300,8 @@ def pull_stream_obligation(ctx, R, prover, pid="C09"):
         if not (isinstance(v, VStruct) and v.name == "ReadyFuture"):
             raise Unsupported("poll of %r" % (v,))
         return VEnum("Poll", I(0), {0: [v.f[0]]})
-    ex.models = [(re.compile(r"^std::str::<impl str>::replace::<char>$|^(std::string::)?String::from_utf8_lossy$"), text, "text plumbing (opaque)"),
+    ex.models = [(re.compile(r"^std::str::<impl str>::replace::<char>$|^(std::string::)?String::from_utf8_lossy$|^core::str::<impl str>::trim(_end|_start)?$"), text, "text plumbing (opaque)"),
+                 (re.compile(r"^<Cow<'_, str> as Deref>::deref$"), lambda ex_, st, a, d, f, w: VRef("val", val=fsmodels._deep(ex_, st, a[0])), "Cow<str> deref (opaque text)"),
                  (re.compile(r"^tokio::process::Command::new::<"), cmd_new, "Command::new"),
                  (re.compile(r"^tokio::process::Command::(arg|stdout|stderr|stdin)::<"), cmd_set, "Command builder"),
                  (re.compile(r"^Stdio::piped$|^Stdio::null$"), opaque, "Stdio"),
@@ -306,6 +314,7 @@ def pull_stream_obligation(ctx, R, prover, pid="C09"):
                  (re.compile(r"^<tokio::fs::File as (tokio::io::)?AsyncWriteExt>::flush$"), tflush, "File::flush (recorded)"),
                  (re.compile(r"^tokio::process::Child::wait_with_output$"), wait, "Child::wait_with_output (recorded; any outcome)"),
                  (re.compile(r"^(std::process::)?ExitStatus::success$"), success, "ExitStatus::success"),
+                 (re.compile(r"^(std::process::)?ExitStatus::code$"), exit_code, "ExitStatus::code (None when the child was killed by a signal)"),
                  (re.compile(r"^std::mem::drop::<"), lambda ex_, st, a, d, f, w: UNIT, "mem::drop"),
                  (re.compile(r"^<(std::string::)?String as Deref>::deref$|^<Vec<u8> as Deref>::deref$"), lambda ex_, st, a, d, f, w: VRef("val", val=fsmodels._deep(ex_, st, a[0])), "String/Vec deref"),
                  (re.compile(r"^<(\{async fn body of (tokio::[\w:]+(<.*>)?)\(\)\}|tokio::io::util::flush::Flush<'_, tokio::fs::File>) as (std::future::)?Future>::poll$"), poll_ready, "poll of a ready library future"),
@@ -415,9 +424,24 @@ def run_local_obligation(ctx, R, prover, U):
         return asyncmodels.ready(VEnum("Result", simp(z3.If(ok, I(0), I(1))), {0: [VInt(ex_.fresh_int("size", ty="u64"), "u64")], 1: [VOpaque("error text")]}))
 
     def s_report(ex_, st, args, dest_ty, func, where):
-        ok = ex_.fresh_bool("report_ok")
-        rec(st, "report", ok=ok)
-        return VEnum("Result", simp(z3.If(ok, I(0), I(1))), {0: [UNIT], 1: [VOpaque("error")]})
+        # report() runs from its own MIR (it turns recorded failures into the exit status); the call is recorded for the order goals
+        rec(st, "report", ok=z3.BoolVal(True))
+        real = ex_.find_fn("incremental::report") or ex_.find_fn("report")
+        if real is None:
+            raise Unsupported("no MIR body for report()")
+        return ex_.exec_fn(real, list(args), st)
+
+    def p_record(kind):
+        def h(ex_, st, args, dest_ty, func, where):
+            rec(st, "record_" + kind)
+            return UNIT
+        return h
+
+    def p_count(kind):
+        def h(ex_, st, args, dest_ty, func, where):
+            ev_ = [c for c in calls if c["call"] == "record_" + kind]
+            return VInt(simp(sum([z3.If(c["guard"], 1, 0) for c in ev_])) if ev_ else I(0), "u64")
+        return h
 
     def s_ready_unit(ex_, st, args, dest_ty, func, where):
         return asyncmodels.ready(UNIT)
@@ -438,8 +462,9 @@ def run_local_obligation(ctx, R, prover, U):
     def rm(ex_, st, args, dest_ty, func, where):
         j = fsmodels._deep(ex_, st, args[0])
         ok = ex_.fresh_bool("remove_ok")
-        rec(st, "remove", target=j, ok=ok)
-        return fsmodels.io_result(ex_, ok)
+        kind = ex_.fresh_int("errkind", lo=1, hi=64)
+        rec(st, "remove", target=j, ok=ok, errkind=kind)
+        return fsmodels.io_result(ex_, ok, kind=kind)
 
     def ident(ex_, st, args, dest_ty, func, where):
         return fsmodels._deep(ex_, st, args[0])
@@ -464,11 +489,16 @@ def run_local_obligation(ctx, R, prover, U):
     ex.models = [(re.compile(r"^<&Vec<PathBuf> as IntoIterator>::into_iter$"), into_iter, "<&Vec<PathBuf>>::into_iter"),
                  (re.compile(r"^BTreeMap::<PathBuf, FileMeta>::retain::<"), map_retain, "BTreeMap::retain (any subset survives)"),
                  (re.compile(r"^Path::join::<&PathBuf>$"), join_id, "Path::join(root, rel) (recorded)"),
-                 (re.compile(r"^std::fs::remove_file::<PathBuf>$"), rm, "fs::remove_file (recorded)"),
+                 (re.compile(r"^std::fs::remove_file::<.*>$"), rm, "fs::remove_file (recorded)"),
                  (re.compile(r"^std::io::_e?print$"), s_unit, "print!/eprintln!"),
                  (re.compile(r"^Path::display$|^<(std::path::)?Display<'_> as ToString>::to_string$|^Instant::now$|^(tokio::sync::)?Semaphore::new$|^Arc::<Semaphore>::new$|^TransferProgress::new$|^<TransferProgress as Clone>::clone$|^<Arc<Semaphore> as Clone>::clone$|^<Arc<Semaphore> as Deref>::deref$|^Vec::<tokio::task::JoinHandle<\(\)>>::(with_capacity|push)$"), s_opaque, "runtime plumbing (opaque)"),
                  (re.compile(r"^(tokio::sync::)?Semaphore::acquire$"), s_acquire, "Semaphore::acquire (granted at the await: one schedule)"),
-                 (re.compile(r"^TransferProgress::record_(ok|err)$"), s_unit, "progress counters"),
+                 (re.compile(r"^TransferProgress::record_ok$"), p_record("ok"), "TransferProgress::record_ok (counted)"),
+                 (re.compile(r"^TransferProgress::record_err$"), p_record("err"), "TransferProgress::record_err (counted)"),
+                 (re.compile(r"^TransferProgress::failed$"), p_count("err"), "TransferProgress::failed (= number of record_err so far)"),
+                 (re.compile(r"^TransferProgress::done$"), p_count("ok"), "TransferProgress::done (= number of record_ok so far)"),
+                 (re.compile(r"^TransferProgress::bytes$|^Instant::elapsed$|^Duration::as_secs_f64$|^format_bytes$|^transfer_speed$|^(transfer::)?(format_bytes|transfer_speed)$"), s_opaque, "reporting figures (opaque)"),
+                 (re.compile(r"^<(std::string::)?String as Into<Box<dyn StdError>>>::into$"), s_opaque, "error boxing (opaque)"),
                  (re.compile(r"^<(std::string::)?String as Deref>::deref$|^<Vec<(std::string::)?String> as Deref>::deref$"), identref, "String/Vec deref"),
                  (re.compile(r"^Result::<BTreeMap<PathBuf, FileMeta>, Box<dyn StdError>>::unwrap_or_default$"), unwrap_or_default, "Result::unwrap_or_default (empty map)"),
                  ] + ex.models
@@ -512,7 +542,12 @@ def run_local_obligation(ctx, R, prover, U):
     n_del = sum([z3.If(c["guard"], 1, 0) for c in dels]) if dels else I(0)
     n_rm = sum([z3.If(c["guard"], 1, 0) for c in rms]) if rms else I(0)
     done = z3.And(poll.discr == 0, _any(c["guard"] for c in calls if c["call"] == "report"))
+    run_ok = z3.And(poll.discr == 0, res.discr == 0)
+    NOTFOUND = fsmodels.ERRKIND.get("NotFound", 1)
     goals = {
+        "exit-0-after-a-real-run-means-every-delivery-succeeded-and-every-planned-removal-succeeded-(or-the-file-was-already-gone)": z3.Implies(
+            z3.And(run_ok, done), z3.And(_all(z3.Implies(d_["guard"], d_["ok"]) for d_ in dels),
+                                        _all(z3.Implies(r_["guard"], z3.Or(r_["ok"], r_.get("errkind", I(-1)) == NOTFOUND)) for r_ in rms))),
         "the-i-th-delivery-is-the-plan's-i-th-transfer:-src/rel->dst/rel-with-the-source's-mtime;-the-i-th-removal-is-the-plan's-i-th-delete-under-the-destination": _all(conds),
         "a-run-that-reaches-its-report-delivered-every-transfer-entry-and-removed-every-delete-entry,-once": z3.Implies(done, z3.And(n_del == nt, n_rm == nd)),
         "never-more-deliveries-or-removals-than-the-plan-lists": z3.And(n_del <= nt, n_rm <= nd),
@@ -679,8 +714,55 @@ def judge_native(c, r):
     return None
 
 
+def transport_death_case(how, profile):
+    """a pull whose ssh transport dies MID-STREAM of the big file: how = 'exit' (status 255) | 'KILL' | 'TERM' (killed by a signal,
+    so it has NO exit code) - the destination must keep the old or get the whole new file, and the run must not exit 0"""
+    import shutil, tempfile
+    exe = build_copia(profile)
+    base = tempfile.mkdtemp(prefix="copia-verif-c09d-")
+    try:
+        s, d, home, bindir = (os.path.join(base, x) for x in ("src", "dst", "home", "bin"))
+        for x in (s, d, home, bindir):
+            os.makedirs(x)
+        new, old = b"N" * 700_000, b"o" * 300_000
+        open(os.path.join(s, "big.bin"), "wb").write(new)
+        open(os.path.join(d, "big.bin"), "wb").write(old)
+        os.utime(os.path.join(d, "big.bin"), (1_500_000_000, 1_500_000_000))
+        die = "exit 255" if how == "exit" else "kill -%s $$" % how
+        with open(os.path.join(bindir, "ssh"), "w") as f:
+            # the listing runs normally; the `cat` of the big file delivers 200000 bytes, then the transport dies
+            f.write("#!/bin/bash\nshift\ncase \"$*\" in\n  cat\\ *big.bin*) head -c 200000 %s; %s;;\n  *) exec bash -c \"$*\";;\nesac\n" % (os.path.join(s, "big.bin"), die))
+        os.chmod(os.path.join(bindir, "ssh"), 0o755)
+        envp = dict(os.environ, PATH=bindir + ":" + os.environ["PATH"], HOME=home)
+        p = subprocess.run([exe, "sync", "-r", "-j", "1", "fakehost:" + s, d], stdout=subprocess.PIPE, stderr=subprocess.PIPE, timeout=120, env=envp, cwd=home, text=True)
+        got = open(os.path.join(d, "big.bin"), "rb").read() if os.path.exists(os.path.join(d, "big.bin")) else None
+        state = "old" if got == old else "new" if got == new else "absent" if got is None else "%d bytes that are neither the old (%d) nor the new (%d) file" % (len(got), len(old), len(new))
+        return {"rc": p.returncode, "big.bin": state, "said": (p.stdout + p.stderr)[-200:]}
+    finally:
+        shutil.rmtree(base, ignore_errors=True)
+
+
+def transport_death_witness(R, pid):
+    for how in ("exit", "KILL", "TERM"):
+        for prof in ("dev", "release"):
+            r = transport_death_case(how, prof)
+            why = None
+            if r["big.bin"] not in ("old", "new"):
+                why = "the destination holds %s" % r["big.bin"]
+            elif r["rc"] == 0 and r["big.bin"] != "new":
+                why = "exit 0 although the file was not delivered"
+            if why:
+                case = {"fn": "copia_transport_death", "how": how, "observed": {prof: r}}
+                return {"confirmed": True, "replay_path": R.save_replay("%s/native-pull-death" % pid, case), "key": "%s/pull/transport-dies-mid-stream/%s" % (pid, how),
+                        "detail": "pull whose ssh dies mid-stream (%s, %s): %s (exit %d)" % ("exit status 255" if how == "exit" else "signal " + how, prof, why, r["rc"])}
+    return {"confirmed": False, "detail": "a pull whose ssh transport dies mid-stream (exit 255, SIGKILL, SIGTERM) leaves the old file in place and exits non-zero"}
+
+
 def native_pull_witness(R, pid):
     def w(name, model, neg):
+        t = transport_death_witness(R, pid)
+        if t["confirmed"]:
+            return t
         for prof in ("dev", "release"):
             for c in pull_scenarios():
                 try:
@@ -697,8 +779,54 @@ def native_pull_witness(R, pid):
     return w
 
 
+def undeletable_case(direction, profile):
+    """`sync -r --delete` facing a stale destination file that CANNOT be removed (immutable attribute: also root is refused);
+    direction: local | pull | push (the latter two through the stand-in for ssh)"""
+    import shutil, tempfile
+    from . import shellcmd
+    exe = build_copia(profile)
+    base = tempfile.mkdtemp(prefix="copia-verif-c04u-")
+    stale = None
+    try:
+        s, d, home = os.path.join(base, "src"), os.path.join(base, "dst"), os.path.join(base, "home")
+        for x in (s, d, home):
+            os.makedirs(x)
+        open(os.path.join(s, "keep"), "w").write("keep")
+        stale = os.path.join(d, "stale")
+        open(stale, "w").write("stale")
+        a = subprocess.run(["chattr", "+i", stale], stdout=subprocess.PIPE, stderr=subprocess.PIPE)
+        if a.returncode != 0:
+            return {"skipped": "chattr +i is not supported here: %s" % a.stderr.decode()[:100]}
+        bindir, log = shellcmd._fake_ssh(base)
+        envp = dict(os.environ, PATH=bindir + ":" + os.environ["PATH"], HOME=home)
+        sa, da = {"local": (s, d), "pull": ("fakehost:" + s, d), "push": (s, "fakehost:" + d)}[direction]
+        p = subprocess.run([exe, "sync", "-r", "--delete", sa, da], stdout=subprocess.PIPE, stderr=subprocess.PIPE, timeout=120, env=envp, cwd=home, text=True)
+        return {"rc": p.returncode, "stale_still_there": os.path.exists(stale), "said": (p.stdout + p.stderr)[-300:]}
+    finally:
+        if stale:
+            subprocess.run(["chattr", "-i", stale], stdout=subprocess.PIPE, stderr=subprocess.PIPE)
+        shutil.rmtree(base, ignore_errors=True)
+
+
+def undeletable_witness(R, pid, directions=("local",)):
+    for direction in directions:
+        for prof in ("dev", "release"):
+            r = undeletable_case(direction, prof)
+            if "skipped" in r:
+                return {"confirmed": False, "detail": r["skipped"]}
+            if r["rc"] == 0 and r["stale_still_there"]:
+                case = {"fn": "copia_undeletable", "direction": direction, "observed": {prof: r}}
+                return {"confirmed": True, "replay_path": R.save_replay("%s/undeletable" % pid, case), "key": "%s/delete-failure-exits-0/%s" % (pid, direction),
+                        "detail": "`copia sync -r --delete` (%s, %s) with a stale file that cannot be removed: exit 0, %r, and the file is still there" % (direction, prof, r["said"].strip().split("\n")[-2:])}
+    return {"confirmed": False, "detail": "a removal that fails makes the run exit non-zero (%s)" % ", ".join(directions)}
+
+
 def native_witness(R, pid):
     def w(name, model, neg):
+        if name.startswith("exit-0-after-a-real-run"):
+            u = undeletable_witness(R, pid)
+            if u["confirmed"]:
+                return u
         for prof in ("dev", "release"):
             for c in scenarios():
                 r = native_case(c, prof)
@@ -849,6 +977,15 @@ def run(R, tier, seed):
     except (Inconclusive, subprocess.TimeoutExpired) as e:
         R.add("C04/native-end-to-end", "inconclusive", detail=str(e)[:400])
     remote_commands(R, tier, "C04", ("push", "pull", "list"))
+    # a removal that fails must not end in exit 0, in any direction (validation each run; the local direction is decided above)
+    try:
+        u = undeletable_witness(R, "C04", ("local", "pull", "push"))
+        if u["confirmed"]:
+            R.add("C04/delete-failure/native", "violated", confirmed=True, replay_path=u["replay_path"], key=u["key"], detail=u["detail"])
+        else:
+            R.add("C04/delete-failure/native", "holds", queries=0, solver_s=0.0, detail=u["detail"] + " (validation, not the deciding step)")
+    except (Inconclusive, subprocess.TimeoutExpired) as e:
+        R.add("C04/delete-failure/native", "inconclusive", detail=str(e)[:300])
 
 
 def remote_commands(R, tier, pid, which):
@@ -880,6 +1017,14 @@ def remote_commands(R, tier, pid, which):
 
 def replay(path):
     case = json.load(open(path))["case"]
+    if case.get("fn") == "copia_transport_death":
+        for prof in ("dev", "release"):
+            print(prof, json.dumps(transport_death_case(case["how"], prof)))
+        return 0
+    if case.get("fn") == "copia_undeletable":
+        for prof in ("dev", "release"):
+            print(prof, json.dumps(undeletable_case(case["direction"], prof)))
+        return 0
     if case.get("fn") in ("remote_shell_transport", "remote_list_newline"):
         from . import shellcmd
         shellcmd.replay_case(case)
